@@ -1925,9 +1925,13 @@ func (r *Raft) applyLoop() {
 			switch entry.EntryType {
 			case NoOpEntry:
 			case ConfigurationEntry:
-				r.applyConfiguration(entry.Data)
-				respond(r.configurationResponseCh, *r.configuration, nil)
+				// A configuration that removes this node makes it step down when it is
+				// applied, which fails whatever is pending. The change is committed at
+				// this point, so its future is taken first and resolved successfully.
+				responseCh := r.configurationResponseCh
 				r.configurationResponseCh = nil
+				r.applyConfiguration(entry.Data)
+				respond(responseCh, *r.configuration, nil)
 			case OperationEntry:
 				responseCh := r.operationManager.pendingReplicated[entry.Index]
 				delete(r.operationManager.pendingReplicated, entry.Index)
